@@ -109,7 +109,8 @@ func C17(c *ev.Ctx) {
 	c.Level = "model_checking"
 	c.Assume("file contents are compared with reference translations of the same package version obtained from an invocation of its own (full, or partial with -ignore-errors)",
 		"'not rewritten' is observed through the modification time, which the harness sets back before every invocation",
-		"packages that fail to load (type errors) are outside the claim")
+		"packages with TYPE errors are outside the claim; patterns whose package cannot be loaded at all (directory missing, every file excluded by build constraints) are inside it: class unloadable of GooseCmd.tla",
+		"exit statuses are compared as zero / non-zero, which is all the property fixes")
 	dir, err := c.SpecDir("spec-cmd", "translator")
 	if err != nil {
 		c.Inconclusive("copy specs: %v", err)
@@ -494,5 +495,5 @@ func C17(c *ev.Ctx) {
 	c.Set("invocations", invs)
 	c.Set("evaluations", invs)
 	c.Set("distinct_nontrivial", replayed)
-	c.Set("rule", "TLC-simulated sequences of invocations (pattern lists over 7 package classes incl. failing / partially failing / build-tagged / nested-path / FFI packages, -ignore-errors, absolute or relative -out, a non-matching pattern) interleaved with source edits; each replayed on the real binary with exit status, file set, bytes and rewrite status compared")
+	c.Set("rule", "TLC-simulated sequences of invocations (pattern lists over 11 packages incl. failing / partially failing / late failing / build-tagged / nested-path / FFI / unloadable ones, -ignore-errors, absolute or relative -out, -dir inside the module, an empty wildcard, a non-matching pattern) interleaved with source edits; each replayed on the real binary with exit status, file set, bytes and rewrite status compared")
 }
